@@ -15,7 +15,7 @@ func main() {
 	r.Rule("random histories of committed operations (next, extend, new / rename / xpub account, custom scope, imports, mark-used, set-synced-to (connecting and NON-connecting blocks, the latter must be refused), passphrase change, lock/unlock, cache invalidation) mixed with ROLLED-BACK transactions of three kinds around address-issuing calls (callback returns an error after issuing = dry-run shape; injected write fault; injected commit failure). After EVERY operation the database file is copied, a fresh manager is opened on the copy (unlocked iff the running one is) and both answer the same query battery: every issued address (found, account, internal, imported, compressed, type, public key, derivation info, used flag, address->account), every account (properties incl. key counts and account public key, name, last external/internal address), LastAccount, ForEachAccount, LookupAccount of every name ever used, active addresses, SyncedTo, BlockHash over the stored window, watch-only flag. After a rolled-back transaction the battery must be unchanged and the restart comparison must still hold; the next committed issuing request is judged against the independent derivation oracle for the committed index. A wallet-level phase runs NewAddress / NewChangeAddress / RenameAccount / NextAccount / ImportAccount / restart mixed with the wallet's own dry-run paths (CreateSimpleTx dry run, ImportAccountDryRun with few addresses, ImportAccountDryRun that FAILS after writing the account because more addresses than an account may hold are requested) and compares, after every operation, the running wallet's manager with a manager opened on a copy of the database over every account number 0..last+1 of every default scope. Non-trivial = history with at least one rolled-back transaction; distinct = distinct op-kind sequences.")
 	r.Trusted("walletdb.DB.Copy (bbolt tx.WriteTo) yields a consistent image")
 	r.Assume("rolled-back transactions contain issuing calls only (DESIGN O-7)", "lookups of addresses that only a rolled-back transaction produced are not compared (O-4)", "Birthday() is not in the battery (O-5)")
-	dir, _ := os.MkdirTemp("", "c08")
+	dir := r.TempDir("c08")
 	defer os.RemoveAll(dir)
 	wt := mgr.DefaultWeights
 	wt.Next, wt.Rename, wt.MarkUsed, wt.SyncedTo, wt.Invalidate, wt.SyncedToGap = 24, 5, 7, 6, 6, 3
